@@ -32,7 +32,10 @@ class ArgChunk(ArrayExpr):
         # fields. The dtype comes from argmin on the meta.
         from dask_array._utils import asarray_safe, meta_from_array
 
-        dtype = np.argmin(asarray_safe([1], like=meta_from_array(self.array)))
+        # The wrapped node may know its dtype although its meta could not be
+        # computed (``compute_meta`` returned None, e.g. for masked inputs).
+        meta = meta_from_array(self.array._meta, ndim=self.array.ndim, dtype=self.array.dtype)
+        dtype = np.argmin(asarray_safe([1], like=meta))
         if is_arraylike(dtype):
             return dtype
         # Return a small array with the correct dtype
